@@ -116,6 +116,7 @@ def parse_obs(path):
             elif t == 'RESP': blk['resp'] = f[1]
             elif t == 'PRE': blk['pre'] = f[1] == '1'
             elif t == 'STEP': blk['step'] = f[1] == '1'
+            elif t == 'QUIET': blk['quiet'] = f[1] == '1'
     return hs
 
 # ---------------------------------------------------------------- helpers over a history
